@@ -36,6 +36,10 @@ from ..poly import Sym, mk_func
 from ..model import AnalysisError, Program
 from ..report import Check, VERIF
 
+# the pause-chunking loops are judged by the loop rules of D5 (regions / closed form / witness
+# search), summarised elsewhere on purpose
+EXPECTED_GAPS = {('loop', '*')}
+
 CLAMP = '{clamp%d}'
 
 # ---------------------------------------------------------------------------- specification
@@ -1000,6 +1004,56 @@ class ZeroCase(LegacyHooks):
         return None
 
 
+class ConcreteCase(LegacyHooks):
+    """Decides numeric tests by evaluating them at one concrete point (witness search)."""
+
+    def __init__(self, assign):
+        LegacyHooks.__init__(self)
+        self.assign = assign
+        self.undecided = []
+
+    def decide(self, cond, st):
+        r = LegacyHooks.decide(self, cond, st)
+        if r is not None:
+            return r
+        if isinstance(cond, (AndC, OrC, NotC)):
+            return None
+        from fractions import Fraction
+        try:
+            if isinstance(cond, Cmp) and isinstance(cond.a, Sym) and isinstance(cond.b, Sym):
+                val = (cond.a - cond.b).evaluate({k: Fraction(v) for k, v in self.assign.items()})
+                return {'<': val < 0, '<=': val <= 0, '>': val > 0, '>=': val >= 0,
+                        '==': val == 0, '!=': val != 0}[cond.op]
+            if isinstance(cond, Truthy) and isinstance(cond.v, Sym):
+                return cond.v.evaluate({k: Fraction(v) for k, v in self.assign.items()}) != 0
+        except (KeyError, ZeroDivisionError, ValueError):
+            pass
+        self.undecided.append(cond)
+        return None
+
+
+def lm_witness(prog, fn, names, zero):
+    """Concrete requests of one zero / non-zero pattern on which doLowLevelMove's decision to send
+    differs from the specification; None if a test was not decided by a concrete point."""
+    r1, s1, a1, r2, s2, a2 = names
+    free = [n for n in names if not zero[n]]
+    bad = []
+    for vals in itertools.product((1, -1, 2), repeat=len(free)):
+        asg = {n: 0 for n in names}
+        asg.update(dict(zip(free, vals)))
+        idle1 = (asg[r1] == 0 and asg[a1] == 0) or asg[s1] == 0
+        idle2 = (asg[r2] == 0 and asg[a2] == 0) or asg[s2] == 0
+        want = not (idle1 and idle2)
+        hk = ConcreteCase(asg)
+        outs = run_helper(prog, fn, overrides={'clear': NONE}, hooks=hk)
+        if hk.undecided:
+            return None
+        sends = {bool(transports(o.state.effects)) for o in outs if o.kind == 'return'}
+        if sends != {want}:
+            bad.append((asg, sends, want))
+    return bad
+
+
 def check_lm_suppression(ck, prog):
     fn = prog.func('ebb_motion.doLowLevelMove')
     names = fn.params[1:7]
@@ -1021,7 +1075,7 @@ def check_lm_suppression(ck, prog):
         if hk.undecided and sends != {want_send} and want_send in sends:
             # a relation between two non-zero parameters (rate == accel) is not fixed by the
             # zero / non-zero case: both outcomes were explored, the expected one among them
-            pending.append((case, hk.undecided[0]))
+            pending.append((case, hk.undecided[0], zero))
             continue
         ck.ob('C06-D6-lm-suppression', 'doLowLevelMove[%s]' % case, sends == {want_send},
               'doLowLevelMove with %s %s; a low-level move must be suppressed exactly when neither '
@@ -1032,6 +1086,30 @@ def check_lm_suppression(ck, prog):
                  '; undecided test: %s' % hk.undecided[0] if hk.undecided else ''),
               fn.loc(), key='ebb_motion.doLowLevelMove::suppression')
     ck.floor('LM zero/non-zero cases', n, 64)
+    # a relation between non-zero parameters: decide by concrete requests of the pending patterns
+    still = []
+    for case, cond, zero in pending:
+        wit = lm_witness(prog, fn, names, zero)
+        if wit is None:
+            still.append((case, cond))
+        elif wit:
+            asg, sends, want = wit[0]
+            ck.ob('C06-D6-lm-suppression', 'doLowLevelMove[%s]' % case, False,
+                  'doLowLevelMove(%s) %s, but %s: a low-level move must be suppressed exactly when '
+                  'neither axis can move (rate and accel both zero, or no steps, on both axes)'
+                  % (', '.join('%s=%d' % (k, asg[k]) for k in names),
+                     'is suppressed' if sends == {False} else 'is sent' if sends == {True}
+                     else 'is sent on some paths only',
+                     'it must be sent' if want else 'neither axis can move'),
+                  fn.loc(), key='ebb_motion.doLowLevelMove::suppression')
+        else:
+            ck.ob('C06-D6-lm-suppression', 'doLowLevelMove[%s] by concrete requests' % case, True)
+            note = ('doLowLevelMove relates two parameters in its suppression test; those zero / '
+                    'non-zero patterns were decided on all requests with non-zero values in '
+                    '{1, -1, 2} only')
+            if note not in ck.assumptions:
+                ck.assumptions.append(note)
+    pending = still
     if pending and not ck.violations:
         raise AnalysisError('doLowLevelMove: the suppression test compares two parameters with '
                             'each other (%r); %d of 64 zero/non-zero cases do not decide it'
